@@ -519,6 +519,65 @@ func (f *File) Write(b []byte) (int, error) {
 
 func (f *File) WriteString(s string) (int, error) { return f.Write([]byte(s)) }
 
+// WriteAt writes at an absolute offset without moving the file position (os.File.WriteAt).
+func (f *File) WriteAt(b []byte, off int64) (int, error) {
+	if f.real != nil {
+		return f.real.WriteAt(b, off)
+	}
+	if controlled.Load() {
+		point(OpYield, f.fs, func() bool { return true })
+	}
+	f.fs.mu.Lock()
+	defer f.fs.mu.Unlock()
+	if f.closed {
+		return 0, fs.ErrClosed
+	}
+	if off < 0 {
+		return 0, &fs.PathError{Op: "writeat", Path: f.path, Err: errors.New("negative offset")}
+	}
+	if f.ino == nil || f.flag&(os.O_WRONLY|os.O_RDWR) == 0 {
+		return 0, &fs.PathError{Op: "write", Path: f.path, Err: errors.New("bad file descriptor")}
+	}
+	if f.flag&os.O_APPEND != 0 {
+		return 0, errors.New("os: invalid use of WriteAt on file opened with O_APPEND")
+	}
+	if err := f.fs.inject("write", f.path); err != nil {
+		return 0, err
+	}
+	writeAt(f.ino, off, b)
+	f.fs.log(FSOp{Kind: FSWrite, Path: f.path, Off: off, Data: append([]byte(nil), b...)})
+	return len(b), nil
+}
+
+// ReadAt reads from an absolute offset without moving the file position (os.File.ReadAt).
+func (f *File) ReadAt(b []byte, off int64) (int, error) {
+	if f.real != nil {
+		return f.real.ReadAt(b, off)
+	}
+	f.fs.mu.Lock()
+	defer f.fs.mu.Unlock()
+	if f.closed {
+		return 0, fs.ErrClosed
+	}
+	if off < 0 {
+		return 0, &fs.PathError{Op: "readat", Path: f.path, Err: errors.New("negative offset")}
+	}
+	if f.ino == nil {
+		return 0, &fs.PathError{Op: "read", Path: f.path, Err: errors.New("is a directory")}
+	}
+	if f.flag&os.O_WRONLY != 0 {
+		return 0, &fs.PathError{Op: "read", Path: f.path, Err: errors.New("bad file descriptor")}
+	}
+	if off >= int64(len(f.ino.data)) {
+		return 0, io.EOF
+	}
+	n := copy(b, f.ino.data[off:])
+	if n < len(b) {
+		return n, io.EOF
+	}
+	return n, nil
+}
+
 func (f *File) Seek(off int64, whence int) (int64, error) {
 	if f.real != nil {
 		return f.real.Seek(off, whence)
